@@ -10,7 +10,7 @@ use darling_core::error::Accumulator;
 use darling_core::Error;
 
 use crate::scenario::{ErrSpec, Outcome, Scenario, Slot, Stmt};
-use crate::sched::Sched;
+use simcore::sched::Sched;
 use crate::trace::{Ev, FinishRes, Payload};
 
 /// Payload of every panic the simulator injects.
